@@ -86,7 +86,8 @@ def run_body(mod, run_seed, plan, tier, want_plan):
         if verdict == "violation":
             v = sim.violation
             out.update(oracle=v.oracle, signature=v.signature, detail=str(v.detail)[:4000])
-            out["trace_tail"] = [list(e) for e in sim.log[-60:]]
+            out["trace_tail"] = sim.notes.get("sub_trace") or [list(e) for e in sim.log[-60:]]
+            out["vdigest"] = sim.notes.get("violation_digest") or sim.digest()[:20]
     except BaseException:  # noqa: B036 - harness or unexpected implementation error
         out["verdict"] = "error"
         out["detail"] = traceback.format_exc()[-6000:]
@@ -401,7 +402,7 @@ def do_replay(mod, path, tier, verbose=True):
             print("  ", " | ".join(e))
     if res.get("verdict") == "violation":
         same = res.get("signature") == rec.get("verdict", {}).get("signature")
-        print(f"REPLAY: violation reproduced (same signature: {same}; digest equal: {res.get('digest') == rec.get('verdict', {}).get('digest')})")
+        print(f"REPLAY: violation reproduced (same signature: {same}; digest equal: {res.get('vdigest') == rec.get('verdict', {}).get('vdigest')})")
         print(f"VIOLATION property={mod.PROPERTY} replay={path}")
         return 1
     print("REPLAY: no violation")
@@ -467,11 +468,14 @@ def do_batch(mod, tier, seed, budget, workers, t0):
         else:
             new_violations.append(v)
     # in-run reported known findings (checks that classify inside a run)
+    unlisted_known = []
     for key in agg.known:
         sig = json.loads(key)
         k = findings.match(known, sig)
         if k is not None:
             seen_known[json.dumps(k["signature"])] = k
+        else:
+            unlisted_known.append(sig)
     for k in seen_known.values():
         lines.append(f"KNOWN-FINDING: property={prop} {k['what']}")
     replay_paths = []
@@ -498,6 +502,8 @@ def do_batch(mod, tier, seed, budget, workers, t0):
         harness_notes.append(f"{ntimeout} of {agg.runs} runs timed out")
     if agg.runs == 0:
         harness_notes.append("no run completed")
+    if unlisted_known:
+        harness_notes.append(f"a run suppressed deviations that are not open entries of known_findings.json: {unlisted_known[:3]}")
     if harness_notes and status == 0:
         status = 2
     wall = time.time() - t0
@@ -521,7 +527,7 @@ def report_violation(mod, v, tier):
         "tier": tier,
         "hashseed": os.environ.get("PYTHONHASHSEED"),
         "plan": v.get("plan"),
-        "verdict": {k: v.get(k) for k in ("oracle", "signature", "detail", "digest")},
+        "verdict": {k: v.get(k) for k in ("oracle", "signature", "detail", "digest", "vdigest")},
     }
     try:
         rec = shrink.minimise(mod, rec, tier, run_one, budget_s=float(os.environ.get("VERIF_SHRINK_BUDGET", "90")))
